@@ -178,11 +178,56 @@ def gen_graph(rng):
     return {"kind": "G", "nodes": nodes, "r": r}
 
 
+DTYPES = ["uint8", "uint16", "int32", "int64", "uint64"]
+BITS = {"uint8": 8, "uint16": 16, "int32": 32, "int64": 64, "uint64": 64}
+DRIVER_MAX = 2 ** 62 - 1  # the OCaml driver parses native 63-bit ints
+REGIONPROPS_MAX = 2 ** 17  # regionprops allocates one slot per label value up to the maximum
+
+
+def dtype_max(dt):
+    return min(int(np.iinfo(dt).max), DRIVER_MAX)
+
+
+def label_pool(rng, dt, cap, heavy):
+    """distinct label values <= cap: ordinary small labels, powers of two and their small multiples
+    (products of two of them are often multiples of 2^bits of the dtype and wrap to 0 there), and
+    values at the top of the range."""
+    bits = BITS[dt]
+    pw = [2 ** k for k in range(1, 63) if 2 ** k <= cap]
+    special = set(pw)
+    for b in pw:
+        for m in (3, 5, 6, 7, 12):
+            if b * m <= cap:
+                special.add(b * m)
+    # the ones whose pairwise products can reach 2^bits come first in the draw
+    half = [x for x in special if x * x >= 2 ** (bits - 2) or x >= 2 ** (bits // 2 - 2)]
+    top = {cap, cap - 1, cap - 2, cap // 2 + 1} - {0}
+    ordinary = set(range(1, 30)) | {31, 33, 57, 99, 101, 127}
+    ordinary = {x for x in ordinary if x <= cap}
+    out = []
+    for _ in range(24):
+        c = rng.random()
+        src = (half or sorted(special)) if c < (0.6 if heavy else 0.15) else sorted(special) if c < (0.8 if heavy else 0.3) \
+            else sorted(top) if c < (0.88 if heavy else 0.4) else sorted(ordinary)
+        x = rng.choice(sorted(src))
+        if x not in out:
+            out.append(x)
+    for x in sorted(ordinary):
+        if len(out) >= 20:
+            break
+        if x not in out:
+            out.append(x)
+    return out
+
+
 def gen_seg(rng, kind=None):
     shape = rng.choice([(3, 3), (4, 4), (2, 2, 2), (3, 3)])
     T = rng.randint(2, 5)
-    labels = rng.sample(range(1, 30), 20)
-    seg = np.zeros((T, *shape), dtype=np.int64)
+    dt = rng.choice(DTYPES)
+    heavy = rng.random() < 0.6
+    labels = label_pool(rng, dt, min(dtype_max(dt), REGIONPROPS_MAX), heavy)
+    rng.shuffle(labels)
+    seg = np.zeros((T, *shape), dtype=np.dtype(dt))
     used = []
     for t in range(T):
         if rng.random() < 0.25:
@@ -208,16 +253,29 @@ def gen_seg(rng, kind=None):
     scale = None
     if rng.random() < 0.4:
         scale = [1] + [rng.choice([1, 2, 0.5, 3, 1.5]) for _ in shape]
-    return {"kind": kind or rng.choice(["S", "S", "S", "NS"]), "seg": seg.tolist(), "scale": scale,
+    return {"kind": kind or rng.choice(["S", "S", "S", "NS"]), "seg": seg.tolist(), "seg_dtype": dt, "scale": scale,
             "iou": rng.random() < 0.6, "r": None, "dup": dup}
 
 
 def gen_ious(rng):
     n = rng.choice([4, 6, 9])
-    la, lb = [rng.randint(1, 4) for _ in range(2)], [rng.randint(1, 5) for _ in range(3)]
+    dt = rng.choice(DTYPES)
+    pool = label_pool(rng, dt, dtype_max(dt), rng.random() < 0.7)
+    la, lb = [rng.choice(pool) for _ in range(2)], [rng.choice(pool) for _ in range(3)]
+    if rng.random() < 0.3:
+        lb[0] = la[0]
     f1 = [rng.choice(la) if rng.random() < 0.6 else 0 for _ in range(n)]
     f2 = [rng.choice(lb) if rng.random() < 0.6 else 0 for _ in range(n)]
-    return {"kind": "I", "f1": f1, "f2": f2}
+    return {"kind": "I", "f1": f1, "f2": f2, "seg_dtype": dt}
+
+
+def seg_array(c, key="seg"):
+    return np.array(c[key], dtype=np.dtype(c.get("seg_dtype", "int64")))
+
+
+def wraps(a, b, dt):
+    """the product of two non-zero labels is 0 in the array's dtype"""
+    return a != 0 and b != 0 and (a * b) % (2 ** BITS[dt]) == 0
 
 
 # --------------------------------------------------------------------------- exact geometry of a label array
@@ -342,7 +400,8 @@ def eval_case(c):
                 "info": {"edges": len(got), "gap": any(b - a > 1 for a, b in zip(ts, ts[1:])), "candidates": len(want) + 1 if len(ts) > 1 else 0}}
 
     if kind in ("S", "NS"):
-        seg = np.array(c["seg"], dtype=np.int64)
+        seg = seg_array(c)
+        sdt = c.get("seg_dtype", "int64")
         scale, r, want_iou = c["scale"], c["r"], c["iou"]
         dets = detections(seg, scale)
         prod = Fr(1)
@@ -438,14 +497,19 @@ def eval_case(c):
             info = {"pairs_on_boundary": nb, "edges": len(impl["edges"]),
                     "gap": any(b - a > 1 for a, b in zip(frames_present, frames_present[1:])),
                     "candidates": sum(1 for a in dets for b in dets if b[0] == a[0] + 1),
-                    "iou_positive": sum(1 for x in ious.values() if x > 0)}
+                    "iou_positive": sum(1 for x in ious.values() if x > 0),
+                    # overlapping label pairs of consecutive frames whose product is 0 in the dtype; those on an edge with iou
+                    "wrap_pairs": sum(1 for (ta, la) in dets for (tb, lb) in dets if tb == ta + 1 and wraps(la, lb, sdt)
+                                      and bool(((seg[ta] == la) & (seg[tb] == lb)).any())),
+                    "wrap_pairs_iou_edges": sum(1 for (u, v) in ious if wraps(u, v, sdt) and ious[(u, v)] > 0)}
         else:
             impl["nfd"] = [(int(t), [int(x) for x in ids]) for t, ids in nfd.items()]
             info = {"candidates": len(dets)}
         return {"line": line, "impl": impl, "bad": bad, "info": info}
 
     if kind == "I":
-        f1, f2 = np.array(c["f1"]), np.array(c["f2"])
+        f1, f2 = seg_array(c, "f1"), seg_array(c, "f2")
+        sdt = c.get("seg_dtype", "int64")
         out = _compute_ious(f1, f2)
         line = "I %s#%s" % (zs(f1), zs(f2))
         impl = sorted((int(a), int(b), float(x)) for a, b, x in out)
@@ -458,7 +522,8 @@ def eval_case(c):
         got = {(a, b): x for a, b, x in impl}
         if set(got) != set(want) or any(abs(Fr(got[k]) - want[k]) > Fr(1, 10 ** 12) for k in want):
             bad.append(("C18:iou", "_compute_ious %s, true %s" % (impl, {k: str(v) for k, v in want.items()})))
-        return {"line": line, "impl": impl, "bad": bad, "info": {"candidates": len(want)}}
+        return {"line": line, "impl": impl, "bad": bad,
+                "info": {"candidates": len(want), "wrap_pairs": sum(1 for (a, b) in want if wraps(a, b, sdt))}}
     raise ValueError(kind)
 
 
@@ -519,7 +584,7 @@ def gen_case(rng):
         return gen_graph(rng)
     if x < 0.92:
         c = gen_seg(rng)
-        c["r"] = pick_radius(rng, detections(np.array(c["seg"], dtype=np.int64), c["scale"]))
+        c["r"] = pick_radius(rng, detections(seg_array(c), c["scale"]))
         return c
     return gen_ious(rng)
 
@@ -545,6 +610,20 @@ def fixed_cases():
     seg2[2, 1, 1] = 5
     out.append({"kind": "S", "seg": seg2.tolist(), "scale": None, "iou": False, "r": 10.0, "dup": True})
     out.append({"kind": "S", "seg": np.zeros((3, 2, 2), dtype=np.int64).tolist(), "scale": None, "iou": True, "r": 1.0, "dup": False})
+    # narrow dtypes: overlapping labels whose product is a multiple of 2^bits
+    for dt, a, b in [("uint8", 16, 32), ("uint8", 128, 2), ("uint8", 255, 64), ("uint16", 256, 768), ("uint16", 65535, 32768),
+                     ("int32", 65536, 131072), ("uint64", 12, 131072)]:
+        sg = np.zeros((3, 3, 3), dtype=np.dtype(dt))
+        sg[0, 0, 0:2] = a
+        sg[1, 0, 1:3] = b
+        sg[1, 2, 2] = 7
+        sg[2, 1, 1] = 5
+        out.append({"kind": "S", "seg": sg.tolist(), "seg_dtype": dt, "scale": None, "iou": True, "r": 10.0, "dup": False})
+    for dt, f1, f2 in [("uint8", [16, 16, 0, 128, 3], [32, 16, 5, 2, 3]), ("uint16", [256, 256, 4096, 0], [256, 512, 16, 9]),
+                       ("int32", [65536, 65536, 2 ** 30, 1], [65536, 3, 4, 2 ** 31 - 1]),
+                       ("int64", [2 ** 32, 2 ** 32, 2 ** 61, 5], [2 ** 32, 7, 8, DRIVER_MAX]),
+                       ("uint64", [2 ** 32, 2 ** 40, 2 ** 61, 5], [2 ** 32, 2 ** 24, 8, DRIVER_MAX])]:
+        out.append({"kind": "I", "f1": f1, "f2": f2, "seg_dtype": dt})
     return out
 
 
@@ -561,7 +640,9 @@ def run(ctx):
         mout = [""] * len(lines)
     stats = {"P": 0, "NP": 0, "G": 0, "S": 0, "NS": 0, "I": 0, "with_gap": 0, "with_edges": 0, "edges_total": 0,
              "pairs_exactly_on_boundary": 0, "equal_positions": 0, "empty_input": 0, "rejected_duplicate_label": 0,
-             "with_scale": 0, "iou_requested": 0, "iou_positive_edges": 0, "seg_with_empty_frame": 0}
+             "with_scale": 0, "iou_requested": 0, "iou_positive_edges": 0, "seg_with_empty_frame": 0,
+             "seg_dtype": {d: 0 for d in DTYPES}, "overlapping_pairs_with_product_0_in_dtype": 0,
+             "iou_edges_with_product_0_in_dtype": 0, "labels_at_dtype_max": 0}
     distinct = set()
     seen_kinds = set()
     for c, ev, mo in zip(cases, evs, mout):
@@ -576,6 +657,13 @@ def run(ctx):
         stats["with_scale"] += c.get("scale") is not None
         stats["iou_requested"] += bool(k == "S" and c["iou"])
         stats["iou_positive_edges"] += info.get("iou_positive", 0)
+        stats["overlapping_pairs_with_product_0_in_dtype"] += info.get("wrap_pairs", 0)
+        stats["iou_edges_with_product_0_in_dtype"] += info.get("wrap_pairs_iou_edges", 0)
+        if k in ("S", "NS", "I"):
+            sdt = c.get("seg_dtype", "int64")
+            stats["seg_dtype"][sdt] += 1
+            vals = np.array(c["seg"] if k != "I" else [c["f1"], c["f2"]], dtype=object).reshape(-1)
+            stats["labels_at_dtype_max"] += bool(len(vals) and max(int(x) for x in vals) >= min(dtype_max(sdt), REGIONPROPS_MAX if k != "I" else dtype_max(sdt)))
         if k in ("S", "NS"):
             a = np.array(c["seg"])
             stats["seg_with_empty_frame"] += bool(any(not a[t].any() for t in range(a.shape[0])) and a.any())
@@ -593,7 +681,7 @@ def run(ctx):
             seen_kinds.add(k)
             samples.append({"input": ev["line"], "impl_output": str(ev["impl"])[:600], "model_output": mo[:600]})
     return {"evaluations": len(cases), "distinct_nontrivial": len(distinct),
-            "rule": "12 fixed cases (F-18a witnesses, 3-4-5 boundary at r=5.0/4.99, empty inputs) + random: point lists (ndim 3/4, 1-6 frames, 0-5 integer points per frame, 28% empty frames, extra gaps, shuffled order, equal positions, offsets like (3,4),(6,8) against radii 5.0/4.99/5.01/sqrt2/..., scale None or multiples of 1/4, time scale 1 or 2) through compute_graph_from_points_list / nodes_from_points_list; graphs with arbitrary ids and negative times through add_cand_edges(node_frame_dict=None); label arrays (2-5 frames of 3x3/4x4/2x2x2, 25% empty frames, 1-3 possibly disconnected labels per frame, 10% with a label value reused in another frame, scale None or dyadic) through compute_graph_from_seg(iou on/off) / nodes_from_segmentation; flat frame pairs through _compute_ious. Non-trivial = at least one pair of detections in consecutive frames (P/G/S) or at least one detection/overlap (NP/NS/I); distinct = distinct driver lines.",
+            "rule": "24 fixed cases (F-18a witnesses, 3-4-5 boundary at r=5.0/4.99, empty inputs) + random: point lists (ndim 3/4, 1-6 frames, 0-5 integer points per frame, 28% empty frames, extra gaps, shuffled order, equal positions, offsets like (3,4),(6,8) against radii 5.0/4.99/5.01/sqrt2/..., scale None or multiples of 1/4, time scale 1 or 2) through compute_graph_from_points_list / nodes_from_points_list; graphs with arbitrary ids and negative times through add_cand_edges(node_frame_dict=None); label arrays (dtype uint8/uint16/int32/int64/uint64; labels = small ordinary values, powers of two and their small multiples so that products of overlapping labels are often 0 in the dtype, and values up to the dtype maximum [capped at 2^17 where regionprops runs, at 2^62-1 for the driver]; 2-5 frames of 3x3/4x4/2x2x2, 25% empty frames, 1-3 possibly disconnected labels per frame, 10% with a label value reused in another frame, scale None or dyadic) through compute_graph_from_seg(iou on/off) / nodes_from_segmentation; flat frame pairs through _compute_ious. Non-trivial = at least one pair of detections in consecutive frames (P/G/S) or at least one detection/overlap (NP/NS/I); distinct = distinct driver lines.",
             "samples": samples, "divergences": divergences, "violations": violations, "stats": stats}
 
 
